@@ -147,6 +147,8 @@ class Engine:
                 extra = None
             elif extra is False or z3.is_false(extra):
                 return False
+        if getattr(self, 'no_prune', False):
+            return True
         self.stats['feas_queries'] += 1
         if self.deadline and time.time() > self.deadline:
             raise Unsupported('time budget of the unit exhausted during path exploration')
